@@ -195,6 +195,7 @@ type client interface {
 	ReadRest() (bool, string)           // remainder read and verified
 	BigSize() int                       // response size that cannot be written in one go to a client that stopped reading
 	GoneAway() bool                     // the proxy told this connection to stop (Connection: close / GOAWAY): no further request on it
+	Refused() bool                      // HTTP/2 only: the last stream was opened after a graceful GOAWAY the client had not read yet
 	Close()
 }
 
@@ -282,8 +283,9 @@ func (h *h1Client) ReadRest() (bool, string) {
 	}
 	return true, ""
 }
-func (h *h1Client) Close()       { h.c.Close() }
-func (h *h1Client) BigSize() int { return bigResp }
+func (h *h1Client) Close()        { h.c.Close() }
+func (h *h1Client) BigSize() int  { return bigResp }
+func (h *h1Client) Refused() bool { return false }
 func (h *h1Client) GoneAway() bool {
 	return h.resp != nil && (h.resp.Close || strings.EqualFold(h.resp.Header.Get("Connection"), "close"))
 }
@@ -404,6 +406,7 @@ func (b *boltClient) ReadRest() (bool, string) {
 func (b *boltClient) Close()         { b.c.Close() }
 func (b *boltClient) BigSize() int   { return bigResp }
 func (b *boltClient) GoneAway() bool { return false }
+func (b *boltClient) Refused() bool  { return false }
 
 func short(err error) string {
 	s := err.Error()
